@@ -24,3 +24,7 @@ Lemma tie_so_marker : SO_MARKER = GEN_SO_MARKER_WRITE /\ SO_MARKER = GEN_SO_MARK
 Proof. split; reflexivity. Qed.
 Lemma tie_default_block_size : GEN_APPROX_BLOCK_SIZE = (64 * 1024)%N.
 Proof. reflexivity. Qed.
+(* the length of the sync marker: the type of the `sync_marker` field of Reader and of the writer's state
+   (hence of every read_const_size_buf / write of it); the literal 16 in Container.cr_open / cr_inner *)
+Lemma tie_sync_marker_len : GEN_SYNC_MARKER_LEN = 16%N.
+Proof. reflexivity. Qed.
